@@ -470,6 +470,62 @@ func runSolver(ctx context.Context, sp solverSpec, file string, tmo int) solveRe
 	return solveResult{sp.name, v, s, secs}
 }
 
+func solverFamily(name string) string {
+	switch {
+	case strings.HasPrefix(name, "z3-new"):
+		return "z3-5"
+	case strings.HasPrefix(name, "z3"):
+		return "z3-4"
+	}
+	return name
+}
+
+// thorough tier: like solveQuery, but after the first definite answer the other solvers get a grace period to confirm it;
+// confirmed = a solver of another family gave the same definite answer; disagree = some solver gave the opposite definite answer
+func solveQueryConfirm(file string, tmo int, grace time.Duration) (res solveResult, all []solveResult, confirmed bool, disagree bool) {
+	ctx, cancel := context.WithCancel(context.Background())
+	defer cancel()
+	ch := make(chan solveResult, len(solvers))
+	for _, sp := range solvers {
+		go func(sp solverSpec) { ch <- runSolver(ctx, sp, file, tmo) }(sp)
+	}
+	var decided *solveResult
+	var deadline <-chan time.Time
+	pending := len(solvers)
+	for pending > 0 {
+		select {
+		case r := <-ch:
+			pending--
+			all = append(all, r)
+			if r.verdict != "unsat" && r.verdict != "sat" {
+				continue
+			}
+			if decided == nil {
+				rr := r
+				decided = &rr
+				deadline = time.After(grace)
+				continue
+			}
+			if r.verdict != decided.verdict {
+				disagree = true
+			} else if solverFamily(r.solver) != solverFamily(decided.solver) {
+				confirmed = true
+			}
+			if confirmed || disagree {
+				cancel()
+			}
+		case <-deadline:
+			cancel()
+			deadline = nil
+		}
+	}
+	if decided != nil {
+		return *decided, all, confirmed, disagree
+	}
+	sort.Slice(all, func(i, j int) bool { return all[i].verdict < all[j].verdict })
+	return all[0], all, false, false
+}
+
 // race the solvers on one query; returns the deciding result and all results
 func solveQuery(file string, tmo int, want string) (solveResult, []solveResult) {
 	ctx, cancel := context.WithCancel(context.Background())
@@ -504,6 +560,11 @@ type Runner struct {
 	mu         sync.Mutex
 	SolverSecs map[string]float64
 	SolverWins map[string]int
+	// thorough tier: cross-confirmation of every discharged query by a second solver family
+	Confirm       bool
+	Confirmed     int
+	Unconfirmed   int
+	Disagreements int
 }
 
 func sanitizeFile(s string) string {
@@ -581,7 +642,33 @@ func (r *Runner) solveOne(o *Obligation) {
 		}
 		os.WriteFile(file, []byte(txt), 0o644)
 		o.Files = append(o.Files, file)
-		res, all := solveQuery(file, r.Timeout, o.Expect)
+		var res solveResult
+		var all []solveResult
+		if r.Confirm && o.Expect != "sat" {
+			var conf, dis bool
+			res, all, conf, dis = solveQueryConfirm(file, r.Timeout, 10*time.Second)
+			r.mu.Lock()
+			if dis {
+				r.Disagreements++
+			} else if res.verdict == "unsat" {
+				if conf {
+					r.Confirmed++
+				} else {
+					r.Unconfirmed++
+				}
+			}
+			r.mu.Unlock()
+			if dis {
+				o.Status = "failed"
+				details = append(details, fmt.Sprintf("q%d: SOLVERS DISAGREE on this query (one says sat, one says unsat): the obligation is not counted as discharged", qi))
+				for _, a := range all {
+					details = append(details, fmt.Sprintf("q%d[%s] %s: %s (%.2fs)", qi, q.Path, a.solver, a.verdict, a.secs))
+				}
+				continue
+			}
+		} else {
+			res, all = solveQuery(file, r.Timeout, o.Expect)
+		}
 		r.mu.Lock()
 		for _, a := range all {
 			r.SolverSecs[a.solver] += a.secs
